@@ -141,7 +141,15 @@ func hostMatches(patternHost, host string) bool {
 
 func check(run *kit.Run, c route.Case) {
 	var b *route.Built
-	run.Guard("build|"+c.RoutesString(), c, func() {
+	// a third of the cases register the last routes through a write transaction that stays open while everything is
+	// looked up through it (hostname first, path-only fallback - both from the transaction's own state)
+	full := c
+	split := len(c.Routes)
+	if c.Churn == 0 && len(c.Routes) > 1 && (len(c.Routes)+len(c.Reqs))%3 == 0 {
+		split = len(c.Routes) / 2
+		c.Routes = full.Routes[:split]
+	}
+	run.Guard("build|"+full.RoutesString(), c, func() {
 		var err error
 		if b, err = route.Build(c); err != nil {
 			run.Inconclusive("fox.New: %v", err)
@@ -158,19 +166,57 @@ func check(run *kit.Run, c route.Case) {
 	if b.ChurnErr != "" {
 		run.Violate("churn|"+c.RoutesString(), b.ChurnErr, c)
 	}
+	var lk route.Lookuper = b.F
+	via := "router"
+	if split < len(full.Routes) {
+		txn := b.F.Txn(true)
+		defer txn.Abort()
+		for _, rs := range full.Routes[split:] {
+			if _, err := txn.Handle(rs.Method, rs.Pattern, b.Handler(), route.RouteOpts(rs)...); err == nil {
+				b.Note(rs)
+			}
+		}
+		// and one deletion of a route registered before, so that the transaction differs from the router both ways
+		if rs := full.Routes[0]; strings.HasPrefix(rs.Pattern, "/") {
+			if _, err := txn.Delete(rs.Method, rs.Pattern); err == nil {
+				b.Forget(rs)
+			}
+		}
+		lk, via = txn, "open write transaction"
+		run.Count("cases_looked_up_through_an_open_write_txn", 1)
+	}
+	c = full
 	hasHost := map[string]bool{}
 	for _, rs := range c.Routes {
 		if !strings.HasPrefix(rs.Pattern, "/") {
 			hasHost[rs.Method] = true
 		}
 	}
-	for i, q := range c.Reqs {
+	// the request list is walked three times, forwards, backwards and interleaved: each lookup runs on the context the
+	// previous one released, whatever that one was
+	n := len(c.Reqs)
+	order := make([]int, 0, 3*n)
+	for i := 0; i < n; i++ {
+		order = append(order, i)
+	}
+	for i := n - 1; i >= 0; i-- {
+		order = append(order, i)
+	}
+	for i := 0; i < n; i++ {
+		order = append(order, (i*7+3)%n)
+	}
+	for oi, i := range order {
+		q := c.Reqs[i]
 		if gen.HasEmptySegment(q.MatchPath()) {
 			continue
 		}
 		id := c.RoutesString() + "|" + q.String()
+		_ = oi
 		run.Guard("probe|"+id, c, func() {
-			got := route.LookupObs(b.F, q)
+			got := route.LookupObs(lk, q)
+			if msg := route.EntryAgreement(lk, q, got); msg != "" {
+				run.Violate("entry|"+id, fmt.Sprintf("[via %s] %s\nroutes: %s\nrequest: %s", via, msg, c.RoutesString(), q), c)
+			}
 			want := b.Ref(q)
 			run.Case(id, hasHost[q.Method] && q.Host != "")
 			// (1) whatever hostname route is selected must match the whole effective host
@@ -208,6 +254,9 @@ func check(run *kit.Run, c route.Case) {
 			}
 			if msg := route.SelfCheck(q, got); msg != "" {
 				run.Violate("self|"+id, fmt.Sprintf("answer is not a match of its own pattern: %s\nroutes: %s\nrequest: %s\nfox: %s", msg, c.RoutesString(), q, got), c)
+			}
+			if via != "router" {
+				return // ServeHTTP serves the committed state, not the transaction's
 			}
 			s := b.Serve(q)
 			if got.Pattern != "" && !got.Tsr && (s.Seen.Kind != "route" || s.Seen.Pattern != got.Pattern) {
